@@ -28,3 +28,5 @@ import LexVerif.Model.WriteBinary
 import LexVerif.Model.Ops.WriteAlgos
 -- string→float algorithm models (fast path, Eisel–Lemire, Bellerophon, power-of-two) and their op handlers
 import LexVerif.Model.Ops.ParseAlgos
+-- API-level pipeline model (fast path → moderate path → slow path) and its op handler `apf`
+import LexVerif.Model.Ops.ParseFloatAlgo
